@@ -93,8 +93,8 @@ struct C14 : Property
 			case 6:
 			{
 				op.kind = "ser";
-				static const int sf[] = {0, 1, 2, 2 | 8, 32, 1 | 32};
-				op.a = {sf[r.below(6)], (int64_t)r.below(4), (int64_t)r.range(-2000000, 2000000), (int64_t)r.below(5)};
+				static const int sf[] = {0, 1, 2, 2 | 8, 32, 1 | 32, 4, 1 | 4, 2 | 4 | 16};
+				op.a = {sf[r.below(9)], (int64_t)r.below(4), (int64_t)r.range(-2000000, 2000000), (int64_t)r.below(5)};
 				op.data = r.pick(std::vector<std::string>{"[1.5,2.25,{\"d\":0.1,\"e\":-1234567.875}]", "0.5", "[1e300,1e-300,3.0,100.0]", "{\"x\":[0.001,1000.5]}", "[1,2,3.5]"});
 				break;
 			}
